@@ -173,11 +173,22 @@ def Sub.partition (s : Sub) (ms : List Matcher) : Sub × Sub × Sub :=
   let r := find ms s.chars
   (s.takeN r.offset, s.slice r.offset (r.offset + r.length), s.dropN (r.offset + r.length))
 
+structure ScopeParts where
+  head : Sub
+  sOpen : Sub
+  scope : Sub
+  sClose : Sub
+  tail : Sub
+
+/-- offset of the first level-0 opening bracket (or the length) -/
+def Sub.openAt (s : Sub) : Nat := (find [.opening] s.chars).offset
+/-- offset of the bracket closing the scope opened at `openAt` (or the length) -/
+def Sub.closeAt (s : Sub) : Nat := (find [.closing] (s.chars.drop s.openAt)).offset + s.openAt
+
 /-- `_Substring.partition_scope()` → (head, open, scope, close, tail) -/
-def Sub.partitionScope (s : Sub) : Sub × Sub × Sub × Sub × Sub :=
-  let i := (find [.opening] s.chars).offset
-  let j := (find [.closing] (s.chars.drop i)).offset + i
-  (s.takeN i, s.slice i (i + 1), s.slice (i + 1) j, s.slice j (j + 1), s.dropN (j + 1))
+def Sub.partitionScope (s : Sub) : ScopeParts :=
+  ⟨s.takeN s.openAt, s.slice s.openAt (s.openAt + 1), s.slice (s.openAt + 1) s.closeAt,
+   s.slice s.closeAt (s.closeAt + 1), s.dropN (s.closeAt + 1)⟩
 
 /-- `item in substring`: a level-0 occurrence -/
 def Sub.containsLit (s : Sub) (p : List Char) : Bool := (find [.lit p] s.chars).imatcher.isSome
@@ -325,9 +336,8 @@ def traceGo (s : Sub) (ops : Ops) (kI : List Char) (kS : List Nat) (summed : Lis
       else traceGo s ops (kI ++ [c]) (kS ++ [rS.headD 0]) summed rI rS.tail
 
 /-- `_trace(s, array, shape, indices, *summed_indices_parts)` -/
-def trace (s : Sub) (ops : Ops) (shape : List Nat) (indices : List Char) (summedParts : List (List Char)) : P Res := do
-  let summed ← mergeSummed s summedParts
-  traceGo s ops [] [] summed indices shape
+def trace (s : Sub) (ops : Ops) (shape : List Nat) (indices : List Char) (summedParts : List (List Char)) : P Res :=
+  (mergeSummed s summedParts).bind fun summed => traceGo s ops [] [] summed indices shape
 
 /-! ## the parser -/
 
@@ -382,40 +392,35 @@ def itemBody (Γ : Ctx) (rec : Rec) (s : Sub) (allowNumber : Bool) : P Res :=
           | .ok r => .ok r
           | .error _ => .error error
     else
-      let (head, sOpen, scope, sClose, tail) := t.partitionScope
-      if !sOpen.isEmpty && sClose.isEmpty then fail2 (.unclosed sOpen.chars) sOpen sClose
-      else if !sOpen.isEmpty && closerOf sOpen.chars != sClose.chars then fail2 (.closedBy sOpen.chars sClose.chars) sOpen sClose
-      else if !tail.isEmpty then fail .afterScope tail
-      else if !head.isEmpty then
-        let (sName, _, sGen) := head.partition [.lit ['_']]
-        let base : P (Ops × List Nat × List Char × List Char) :=
-          if sOpen.isEmpty then
+      let ps := t.partitionScope
+      if !ps.sOpen.isEmpty && ps.sClose.isEmpty then fail2 (.unclosed ps.sOpen.chars) ps.sOpen ps.sClose
+      else if !ps.sOpen.isEmpty && closerOf ps.sOpen.chars != ps.sClose.chars then
+        fail2 (.closedBy ps.sOpen.chars ps.sClose.chars) ps.sOpen ps.sClose
+      else if !ps.tail.isEmpty then fail .afterScope ps.tail
+      else if !ps.head.isEmpty then
+        let sName := (ps.head.partition [.lit ['_']]).1
+        let sGen := (ps.head.partition [.lit ['_']]).2.2
+        let base : P Res :=
+          if ps.sOpen.isEmpty then
             match Γ.lookupVar sName.chars with
             | none => fail (.noSuchVariable sName.chars) sName
             | some shape =>
               if shape.length != sGen.len then fail (.varDim shape.length sName.chars sGen.len) t
-              else .ok (.var sName.chars, shape, [], [])
-          else if sOpen.chars == ['('] then do
-            let arg ← rec scope
-            match Γ.lookupFn sName.chars with
-            | none => fail (.noSuchFunction sName.chars) sName
-            | some gen =>
-              if gen.length != sGen.len then fail (.fnDim gen.length sName.chars sGen.len) t
-              else .ok (.call sName.chars sGen.len arg.ops, arg.shape ++ gen, arg.indices, arg.summed)
+              else .ok ⟨.var sName.chars, shape, [], []⟩
+          else if ps.sOpen.chars == ['('] then
+            (rec ps.scope).bind fun arg =>
+              match Γ.lookupFn sName.chars with
+              | none => fail (.noSuchFunction sName.chars) sName
+              | some gen =>
+                if gen.length != sGen.len then fail (.fnDim gen.length sName.chars sGen.len) t
+                else .ok ⟨.call sName.chars sGen.len arg.ops, arg.shape ++ gen, arg.indices, arg.summed⟩
           else .error error
-        do
-          let (ops, shape, indices, summed) ← base
-          let (ops, shape, indices) ← genIndicesGo ops shape indices sGen
-          trace t ops shape indices [summed]
-      else if sOpen.chars == ['('] then do
-        let r ← rec scope
-        .ok { r with ops := .scope r.ops }
-      else if sOpen.chars == ['['] then do
-        let r ← rec scope
-        .ok { r with ops := .jump r.ops }
-      else if sOpen.chars == ['{'] then do
-        let r ← rec scope
-        .ok { r with ops := .mean r.ops }
+        base.bind fun b =>
+          (genIndicesGo b.ops b.shape b.indices sGen).bind fun g =>
+            trace t g.1 g.2.1 g.2.2 [b.summed]
+      else if ps.sOpen.chars == ['('] then (rec ps.scope).bind fun r => .ok { r with ops := .scope r.ops }
+      else if ps.sOpen.chars == ['['] then (rec ps.scope).bind fun r => .ok { r with ops := .jump r.ops }
+      else if ps.sOpen.chars == ['{'] then (rec ps.scope).bind fun r => .ok { r with ops := .mean r.ops }
       else .error error
 
 /-- `_Parser.parse_power` -/
@@ -426,52 +431,53 @@ def powerBody (Γ : Ctx) (rec : Rec) (s : Sub) (allowNumber : Bool) : P Res :=
   | [b, e] =>
     if b.endsWith [' '] then fail .wsBeforePow (b.dropN (b.len - 1))
     else if e.startsWith [' '] then fail .wsAfterPow (e.takeN 1)
-    else do
-      let base ← itemBody Γ rec b allowNumber
-      let (head, sOpen, scope, sClose, tail) := e.partitionScope
-      let ex ←
-        if head.isEmpty && tail.isEmpty && sOpen.chars == ['('] && sClose.chars == [')'] then rec scope
-        else match e.chars with
-          | c :: _ => if isDigit c || c == '-' then parseSignedInt e else fail .expectedIntOrScope e
-          | [] => fail .expectedIntOrScope e
-      if !ex.indices.isEmpty then fail .exponentDim e
-      else do
-        let summed ← mergeSummed s.trim [base.summed, ex.summed]
-        verifyIndicesSummed s.trim base.indices summed
-        .ok ⟨.pow base.ops ex.ops, base.shape, base.indices, summed⟩
+    else
+      (itemBody Γ rec b allowNumber).bind fun base =>
+        let ps := e.partitionScope
+        let ex : P Res :=
+          if ps.head.isEmpty && ps.tail.isEmpty && ps.sOpen.chars == ['('] && ps.sClose.chars == [')'] then rec ps.scope
+          else match e.chars with
+            | c :: _ => if isDigit c || c == '-' then parseSignedInt e else fail .expectedIntOrScope e
+            | [] => fail .expectedIntOrScope e
+        ex.bind fun ex =>
+          if !ex.indices.isEmpty then fail .exponentDim e
+          else
+            (mergeSummed s.trim [base.summed, ex.summed]).bind fun summed =>
+              (verifyIndicesSummed s.trim base.indices summed).bind fun _ =>
+                .ok ⟨.pow base.ops ex.ops, base.shape, base.indices, summed⟩
   | _ => fail .repeatedPowers s.trim
 
 /-- `mapM` with the position as extra argument (python `enumerate`) -/
 def mapMIdx {α β : Type} (f : Nat → α → P β) : List α → Nat → P (List β)
   | [], _ => .ok []
-  | a :: as, k => do
-    let b ← f k a
-    let bs ← mapMIdx f as (k + 1)
-    .ok (b :: bs)
+  | a :: as, k => (f k a).bind fun b => (mapMIdx f as (k + 1)).bind fun bs => .ok (b :: bs)
 
 /-- `_Parser.parse_term` -/
 def termBody (Γ : Ctx) (rec : Rec) (s : Sub) : P Res :=
   let t := s.trim
   if t.isEmpty then powerBody Γ rec s true
-  else do
-    let parts ← mapMIdx (fun i p => powerBody Γ rec p (i == 0)) (t.split [.spaces]) 0
-    match parts with
-    | [r] => .ok r
-    | _ =>
-      trace t (.mul (parts.map (·.ops))) (parts.map (·.shape)).flatten (parts.map (·.indices)).flatten (parts.map (·.summed))
+  else
+    (mapMIdx (fun i p => powerBody Γ rec p (i == 0)) (t.split [.spaces]) 0).bind fun parts =>
+      match parts with
+      | [r] => .ok r
+      | _ =>
+        trace t (.mul (parts.map (·.ops))) (parts.map (·.shape)).flatten (parts.map (·.indices)).flatten (parts.map (·.summed))
+
+def plusMinus : List Matcher := [.lit [' ', '+', ' '], .lit [' ', '-', ' ']]
+def slash : List Matcher := [.lit [' ', '/', ' ']]
 
 /-- `_Parser.parse_fraction` -/
 def fractionBody (Γ : Ctx) (rec : Rec) (s : Sub) : P Res :=
-  match s.split [.lit (lit " / ")] with
+  match s.split slash with
   | [n] => termBody Γ rec n
-  | [n, d] => do
-    let num ← termBody Γ rec n
-    let den ← termBody Γ rec d
-    if !den.indices.isEmpty then fail .denominatorDim d.trim
-    else do
-      let summed ← mergeSummed s.trim [num.summed, den.summed]
-      verifyIndicesSummed s.trim num.indices summed
-      .ok ⟨.div num.ops den.ops, num.shape, num.indices, summed⟩
+  | [n, d] =>
+    (termBody Γ rec n).bind fun num =>
+      (termBody Γ rec d).bind fun den =>
+        if !den.indices.isEmpty then fail .denominatorDim d.trim
+        else
+          (mergeSummed s.trim [num.summed, den.summed]).bind fun summed =>
+            (verifyIndicesSummed s.trim num.indices summed).bind fun _ =>
+              .ok ⟨.div num.ops den.ops, num.shape, num.indices, summed⟩
   | _ => fail .repeatedFractions s.trim
 
 def charsMinus (a b : List Char) : Option Char := minChar (a.filter (!b.contains ·))
@@ -503,29 +509,32 @@ def alignGo (sFirst : Sub) (shape : List Nat) (indices : List Char) :
       | some (c, n, m) => fail2 (.termLength c n m iterm) sFirst.trim sTerm.trim
       | none => alignGo sFirst shape indices rest (iterm + 1) (negs ++ [neg]) (args ++ [ops]) (summed ++ r.summed)
 
+/-- `s.trim_start().strip_prefix('-')` when that is a non-empty substring (python truthiness of `_Substring`) -/
+def stripMinus (s : Sub) : Option Sub :=
+  if s.trimStart.startsWith ['-'] && (s.trimStart.dropN 1).len != 0 then some (s.trimStart.dropN 1) else none
+
 /-- `_Parser.parse_expression` -/
 def exprBody (Γ : Ctx) (rec : Rec) (s : Sub) : P Res :=
-  let stripped : Option Sub :=
-    let t := s.trimStart
-    if t.startsWith ['-'] && (t.dropN 1).len != 0 then some (t.dropN 1) else none
-  let (negate, sTail) := match stripped with | some t => (true, t) | none => (false, s)
-  do
-    let unaligned ← (sTail.isplit [.lit (lit " + "), .lit (lit " - ")] (if negate then 1 else 0)).mapM
-      fun (im, sTerm) => do
-        let r ← fractionBody Γ rec sTerm
-        .ok (im == some 1, sTerm, r)
+  let stripped := stripMinus s
+  let negate := stripped.isSome
+  let sTail := stripped.getD s
+  (mapMIdx (fun _ (p : Option Nat × Sub) => (fractionBody Γ rec p.2).bind fun r => .ok (p.1 == some 1, p.2, r))
+      (sTail.isplit plusMinus (if negate then 1 else 0)) 0).bind fun unaligned =>
     match unaligned with
     | [] => fail (.expected true false) s      -- unreachable: isplit yields at least once
     | (neg, sFirst, first) :: rest =>
       if !neg && rest.isEmpty then .ok first
-      else do
-        let (negs, args, summed) ← alignGo sFirst first.shape first.indices rest 2 [neg] [first.ops] first.summed
-        .ok ⟨.add negs args, first.shape, first.indices, summed⟩
+      else
+        (alignGo sFirst first.shape first.indices rest 2 [neg] [first.ops] first.summed).bind fun a =>
+          .ok ⟨.add a.1 a.2.1, first.shape, first.indices, a.2.2⟩
 
-/-- closing the knot on fuel -/
-def parseExpr (Γ : Ctx) : Nat → Sub → P Res
-  | 0, s => .error ⟨.outOfFuel, some s.span, none⟩
-  | n + 1, s => exprBody Γ (parseExpr Γ n) s
+/-- closing the knot on fuel; `base` answers when the fuel is exhausted -/
+def parseExprB (Γ : Ctx) (base : Rec) : Nat → Sub → P Res
+  | 0, s => base s
+  | n + 1, s => exprBody Γ (parseExprB Γ base n) s
+
+/-- (theorem `parse_total`: with fuel above the input length the base case is never reached) -/
+def parseExpr (Γ : Ctx) : Nat → Sub → P Res := parseExprB Γ (fun s => .error ⟨.outOfFuel, some s.span, none⟩)
 
 inductive Entry where
   | expression | fraction | term | power (allowNumber : Bool) | item (allowNumber : Bool)
